@@ -8,6 +8,8 @@ import (
 	"github.com/gin-gonic/gin"
 )
 
+var ginRouters int
+
 func TestVerifGinMiddleware(t *testing.T) {
 	gin.SetMode(gin.ReleaseMode)
 	vRunDriver(t, vDriver{Name: "gin.SentinelMiddleware", DefaultRes: "GET:/ping/:id", CustomRes: "custom-gin", HasFallback: true, CanPanic: true,
@@ -20,6 +22,9 @@ func TestVerifGinMiddleware(t *testing.T) {
 				opts = append(opts, WithBlockFallback(func(c *gin.Context) { c.AbortWithStatusJSON(http.StatusBadRequest, "fallback") }))
 			}
 			router := gin.New()
+			if ginRouters++; ginRouters%2 == 0 { // every other engine also carries an engine-wide guard in front (another resource, never blocked)
+				router.Use(SentinelMiddleware(WithResourceExtractor(func(*gin.Context) string { return "gin-engine-wide-guard" })))
+			}
 			panicked := false
 			var pv interface{}
 			router.Use(gin.CustomRecovery(func(c *gin.Context, v interface{}) { panicked, pv = true, v; c.AbortWithStatus(http.StatusInternalServerError) }))
@@ -55,6 +60,9 @@ func TestVerifGinMiddleware(t *testing.T) {
 				f.panicked, f.pv = true, v
 				c.AbortWithStatus(http.StatusInternalServerError)
 			}))
+			if ginRouters++; ginRouters%2 == 0 {
+				router.Use(SentinelMiddleware(WithResourceExtractor(func(*gin.Context) string { return "gin-engine-wide-guard" })))
+			}
 			router.Use(SentinelMiddleware(opts...)) // ONE middleware value for all requests of the combination
 			router.GET("/ping/:id", func(c *gin.Context) {
 				if err := hs.call(); err != nil {
